@@ -187,6 +187,67 @@ pub fn run(p: &Params) -> Run {
             _ => run.count("split-error"),
         }
     }
+    // split, every aggregate the property names and HAVING — through the program: the input as ONE file and the same lines cut into
+    // TWO files at any line must give the same answer (status, records, line count). The statements are the general ones of this
+    // check (AVG, STDDEV / VARIANCE, COUNT(DISTINCT), PERCENTILE, BOOL_AND / BOOL_OR, WHERE, HAVING with hidden aggregates); what a
+    // part has to hand over are its per-group SUMMARIES, not its printed table (with HAVING the printed tables of the parts do not
+    // determine the whole: Props/PipelineLines.lean `having_parts_do_not_determine_the_whole`). The two-file run also goes to the
+    // Lean model.
+    for _ in 0..p.n(500, 20_000) {
+        let q = if rng.chance(1, 4) {
+            format!("SELECT k, AVG(v), VARIANCE(w), COUNT(DISTINCT v), PERCENTILE(v, {}), COUNT(*) FROM t{} GROUP BY k HAVING {}",
+                rng.pick(&["0.5", "0.9", "0.0"]), if rng.chance(1, 3) { " WHERE v > 0" } else { "" },
+                rng.pick(&["COUNT(*) > 1", "COUNT(*) > 1 AND AVG(v) >= 0", "COUNT(DISTINCT w) >= 2", "SUM(v) > 5 OR COUNT(v) = 1", "AVG(t2 - ts) >= '00:00:00'::interval"]))
+        } else { query(&mut rng) };
+        let prepared = match prepare(C04_DEF, &q) { Ok(p) => p, Err(_) => { run.count("rejected"); continue; } };
+        let large = rng.chance(1, 8);
+        let lines: Vec<String> = gen_typed_input(&mut rng, large);
+        let cut = rng.below(lines.len() + 1);
+        let one = run_files(&prepared, &[join_lines(&lines)]);
+        let two_files = vec![join_lines(&lines[..cut]), join_lines(&lines[cut..])];
+        let two = run_files(&prepared, &two_files);
+        run.oracle_checks += 1;
+        let desc = format!("query={} input={:?} cut={}", q, lines, cut);
+        if one.status == "panic" || two.status == "panic" { run.fail(desc.clone(), "panic:split", "panicked".to_owned()); }
+        else if one != two {
+            run.fail(desc.clone(), "split-into-files-changes-result", format!("one file: {} {:?} ({} lines); cut into two files: {} {:?} ({} lines)", one.status, one.records(), one.total_lines, two.status, two.records(), two.total_lines));
+        }
+        run.count(&format!("split-files:{}", one.status.split(':').next().unwrap_or("")));
+        if let Some(case) = batch_case(&prepared, b"", &two_files, None) {
+            run.case_with_desc(case, two.wire(), format!("split-files:{}:h{}:r{}", two.status, q.contains("HAVING") as u8, two.records().len().min(3)), desc);
+        }
+    }
+    // split with HAVING, from the parts' SUMMARIES: the parts are asked for what a part has to remember (per group: COUNT(v), SUM(v),
+    // SUM(v * v), MIN(v), MAX(w), COUNT(*) — no HAVING), the whole for AVG, VARIANCE, SUM, MIN, MAX, COUNT(*) under HAVING COUNT(*) > h;
+    // expected: per key of either part n = n₁ + n₂, kept iff n > h; AVG = (S₁ + S₂) / (c₁ + c₂) truncated, VARIANCE = the rounded
+    // quotient of the exact c·Q − S² and c² (bitwise; C04), SUM / MIN / MAX combined, NULL neutral. COUNT(*) is present, so no group is
+    // without a value entry (D10) in any part: every cut is covered.
+    for _ in 0..p.n(300, 10_000) {
+        let with_key = rng.chance(3, 4);
+        let wher = if rng.chance(1, 3) { " WHERE v > 0" } else { "" };
+        let h = rng.below(3) as i64;
+        let (sel, grp) = if with_key { ("k, ", " GROUP BY k") } else { ("", "") };
+        let qpart = format!("SELECT {}COUNT(v), SUM(v), SUM(v * v), MIN(v), MAX(w), COUNT(*) FROM t{}{}", sel, wher, grp);
+        let qwhole = format!("SELECT {}AVG(v), VARIANCE(v), SUM(v), MIN(v), MAX(w), COUNT(*) FROM t{}{} HAVING COUNT(*) > {}", sel, wher, grp, h);
+        let large_split = rng.chance(1, 8);
+        let lines: Vec<String> = gen_typed_input(&mut rng, large_split);
+        let cut = rng.below(lines.len() + 1);
+        run.oracle_checks += 1;
+        let desc = format!("query={} (parts: {}) input={:?} cut={}", qwhole, qpart, lines, cut);
+        match (run_engine_batch(C04_DEF, &qwhole, &lines), run_engine_batch(C04_DEF, &qpart, &lines[..cut].to_vec()), run_engine_batch(C04_DEF, &qpart, &lines[cut..].to_vec())) {
+            (RowsOutcome::Rows { rows: w, .. }, RowsOutcome::Rows { rows: ra, .. }, RowsOutcome::Rows { rows: rb, .. }) => {
+                let expected = merge_summaries(with_key, h, &ra, &rb);
+                let same = w.len() == expected.len() && w.iter().zip(expected.iter()).all(|(x, y)| x.len() == y.len() && x.iter().zip(y.iter()).all(|(a, b)| match (a, b) {
+                    (Value::Float(a), Value::Float(b)) => a.0.to_bits() == b.0.to_bits(),
+                    _ => a == b,
+                }));
+                if !same { run.fail(desc, "split-merge-of-summaries-differs", format!("whole={:?} from the parts' summaries={:?}", w, expected)); }
+                run.count("split-summaries-checked");
+            }
+            (RowsOutcome::Panic(m), _, _) | (_, RowsOutcome::Panic(m), _) | (_, _, RowsOutcome::Panic(m)) => run.fail(desc, "panic:split", m),
+            _ => run.count("split-error"),
+        }
+    }
     // the whole program: statement from raw text, every output format, lines spread over 1-3 files
     let mut erng = Rng::new(p.seed ^ 0x15e2e);
     crate::e2e::perm_relation(&mut run, &mut erng, p.n(400, 4000), C04_DEF, &query, &|rng: &mut Rng| gen_typed_input(rng, false));
@@ -242,4 +303,31 @@ fn merge(with_key: bool, a: &[Vec<Value>], b: &[Vec<Value>]) -> Vec<Vec<Value>> 
         let y = b.iter().find(|r| &r[0] == k);
         match (x, y) { (Some(x), Some(y)) => combine(x, y), (Some(x), None) => x.clone(), (None, Some(y)) => y.clone(), (None, None) => unreachable!() }
     }).collect()
+}
+
+/// the table of `SELECT [k,] AVG(v), VARIANCE(v), SUM(v), MIN(v), MAX(w), COUNT(*) … HAVING COUNT(*) > h` from the two parts' summary
+/// tables `[k,] COUNT(v), SUM(v), SUM(v * v), MIN(v), MAX(w), COUNT(*)`: groups = the union of the parts' groups (ascending), summaries
+/// combined (counts and sums add, extremes combine, NULL neutral), THEN HAVING, then the finished cells
+fn merge_summaries(with_key: bool, h: i64, a: &[Vec<Value>], b: &[Vec<Value>]) -> Vec<Vec<Value>> {
+    let off = if with_key { 1 } else { 0 };
+    let int = |v: &Value| -> Option<i128> { if let Value::Int(x) = v { Some(*x as i128) } else { None } };
+    let finish = |key: Option<&Value>, x: Option<&Vec<Value>>, y: Option<&Vec<Value>>| -> Option<Vec<Value>> {
+        let cell = |i: usize, f: &dyn Fn(&Value, &Value) -> Value| -> Value { match (x, y) { (Some(x), Some(y)) => f(&x[off + i], &y[off + i]), (Some(x), None) => x[off + i].clone(), (None, Some(y)) => y[off + i].clone(), (None, None) => Value::Null } };
+        let (cv, s, q, mn, mx, n) = (cell(0, &add), cell(1, &add), cell(2, &add), cell(3, &least), cell(4, &greatest), cell(5, &add));
+        if !(int(&n)? > h as i128) { return None; }
+        let c = int(&cv)?;
+        let (avg, var) = match (int(&s), int(&q)) {
+            (Some(s), Some(q)) if c > 0 => (Value::Int((s / c) as i64), Value::Float(sqlgrep::model::Float((c * q - s * s) as f64 / (c * c) as f64))),
+            _ => (Value::Null, Value::Null),
+        };
+        let mut r = Vec::new();
+        if let Some(k) = key { r.push(k.clone()); }
+        r.extend(vec![avg, var, s, mn, mx, n]);
+        Some(r)
+    };
+    if !with_key { return finish(None, a.first(), b.first()).into_iter().filter(|_| !(a.is_empty() && b.is_empty())).collect(); }
+    let mut keys: Vec<Value> = a.iter().chain(b.iter()).map(|r| r[0].clone()).collect();
+    keys.sort();
+    keys.dedup();
+    keys.iter().filter_map(|k| finish(Some(k), a.iter().find(|r| &r[0] == k), b.iter().find(|r| &r[0] == k))).collect()
 }
